@@ -8,6 +8,13 @@ AREAS = {
                 'control requests; a case is non-trivial when the model run takes at least one of the tagged branches '
                 '(second lifecycle for an ECU, resume, control request, missing timestamp, several ECUs, merge); distinct = distinct case text',
     },
+    'srt': {
+        'shrink_sep': ';', 'head_sep': '| ',
+        'rule': 'streams of 1-30 (thorough: 1-80) messages over 1-4 lifecycles / 1-3 ECUs with a static lifecycle table (some lifecycles missing), '
+                'window 1-5 s, minimum delay 0 / 0.1 / 2 / 20 s; half of the cases satisfy the ordering hypothesis (monotone reception, '
+                'increasing indices, delay within the bound), the other half violate it (delays up to 100 s, non-monotone reception, '
+                'duplicate indices, timestamps 0 / u32::MAX); non-trivial = tagged branch (reordered, ctrl, missing lifecycle, several ECUs...)',
+    },
     'dp': {
         'shrink_sep': ';', 'head_sep': None,
         'rule': 'byte streams built from items: well-formed messages (all 32 combinations of the optional header parts, both byte orders, '
@@ -33,6 +40,11 @@ PROPS = {
         'id': 'C02', 'area': 'dp',
         'theorems': ['Props.C02_written_parses'],
         'n_quick': 3000, 'n_thorough': 30000,
+    },
+    'C10': {
+        'id': 'C10', 'area': 'srt',
+        'theorems': ['Props.C10_perm', 'Props.C10_sorted', 'Props.C10_threshold_ge_min'],
+        'n_quick': 4000, 'n_thorough': 150000,
     },
     'C05': {
         'id': 'C05', 'area': 'lc',
